@@ -126,7 +126,7 @@ def opDEC (args obs : List String) : Option DecOut :=
           else if p == .stream ∧ cls == "m" ∧ (m.startsWith "ok") == (go.startsWith "ok") ∧ ¬ go.startsWith "ok" then none
           -- stream path, model accepts, library rejects, and the input has a token in the ext32 format: the library's
           -- `Reader.Skip` gives up on those (DESIGN 0.5); outside the modelled domain
-          else if p == .stream ∧ m.startsWith "ok" ∧ ¬ go.startsWith "ok" ∧ hasExt32Tok (b.length + 1) b then none
+          else if p == .stream ∧ b.length > 4000 ∧ hasExt32Tok (b.length + 1) b then none
           else some s!"model=[{m}] go=[{go}]"
         some { corr := corr, fails := f10 ++ f13 ++ f18 ++ fAlloc,
                branch := s!"dec.{ty}.{ps}.{cls}.{if rv = "F" then "F" else "U"}.{kind}" }
@@ -329,7 +329,9 @@ def opCHUNK (args obs : List String) : Option DecOut :=
         | _ => (false, [])
       -- the model's `skip` is the slice-path one; on inputs with an ext32 token the stream `Skip` of the library
       -- deviates (DESIGN 0.5): there the model is not compared, the property oracle still is
-      let corr := if hasExt32Tok (b.length + 1) b then none else (if m == go then none else some s!"model=[{m}] go=[{go}]")
+      -- the model has msgp's stream-`Skip` failure on ext32 values; it is exact while the whole message sits in
+      -- the reader's buffer (4 KiB): beyond that the comparison is not made on inputs with an ext32 token
+      let corr := if hasExt32Tok (b.length + 1) b && b.length > 4000 then none else (if m == go then none else some s!"model=[{m}] go=[{go}]")
       some { corr := corr, fails := f10 ++ f11,
              branch := s!"chunk.{cls}.{if wf then "wf" else "other"}.{(go.splitOn " ").headD "?"}" }
   | _ => none
